@@ -917,7 +917,14 @@ class Exec:
             if s.track_poison and 'nsw' in flags: s.oblige('poison', Not(And(z3.BVAddNoOverflow(a, b, True), z3.BVAddNoUnderflow(a, b))), 'add nsw overflow')
             return a + b
         if op == 'sub': return a - b
-        if op == 'mul': return a * b
+        if op == 'mul':
+            # byte splat: zext(i8 x) * 0x0101..01 is x repeated in every byte (clang packs u8vec4 / i8vec4 operands into one integer register); exact, no carries
+            for x, y in ((a, b), (b, a)):
+                if z3.is_bv_value(y) and n in (16, 32, 64) and y.as_long() == int('01' * (n // 8), 16):
+                    xs = z3.simplify(x)
+                    if z3.is_app(xs) and xs.decl().kind() == z3.Z3_OP_ZERO_EXT and xs.arg(0).size() == 8: return z3.Concat(*([xs.arg(0)] * (n // 8)))
+                    if z3.is_app(xs) and xs.decl().kind() == z3.Z3_OP_CONCAT and xs.num_args() == 2 and z3.is_bv_value(xs.arg(0)) and xs.arg(0).as_long() == 0 and xs.arg(1).size() == 8: return z3.Concat(*([xs.arg(1)] * (n // 8)))
+            return a * b
         if op in ('udiv', 'urem', 'sdiv', 'srem'):
             s.oblige('ub', b == bv(0, n), op + ' by zero')
             if op[0] == 's': s.oblige('ub', And(a == bv(1 << (n - 1), n), b == bv(-1, n)), op + ' INT_MIN/-1')
